@@ -80,7 +80,11 @@ pub fn check(e: &Exec) -> Verdict {
     let faulty = !e.case.faults.is_empty();
 
     match &e.obs {
-        Err(msgs) if msgs.iter().any(|m| m.contains("@ tabs/") || m.contains("@ vh/src") || m.contains("@ core/src")) && e.injected == 0 => {
+        Err(msgs)
+            if msgs.iter().any(|m| m.contains("@ tabs/") || m.contains("@ vh/src") || m.contains("@ core/src"))
+                && !msgs.iter().any(|m| m.contains("called outside its domain"))
+                && e.injected == 0 =>
+        {
             // a panic raised by the harness itself decides nothing
             inc.push(format!("harness panic: {}", short(msgs)));
         }
